@@ -4,7 +4,7 @@
     sees) and the executable acceptor [trace_wf].
     Part 2: an exact model of the tracing API's helper layer (tracing/api.go,
     registry.go, incomingbuffertracer.go, outgoingbuffertracer.go): the three
-    (domain, message-ID) -> task-ID registries, the ID generator, the
+    (domain, message-ID) -> task-ID registries, the tracing-local ID counter, the
     request helpers (TraceReqInitiate / Receive / Complete / Finalize,
     EndReqInOnReset, EndTaskOnReset), [singleKindLocation] and the port buffer
     hooks, as a function from helper calls to emitted trace events.
@@ -180,7 +180,7 @@ Fixpoint rdel (k : key) (m : list (key * N)) : list (key * N) :=
   end.
 
 Record api := mk_api {
-  a_next : N;                         (* next value of the sequential ID generator *)
+  a_next : N;                         (* next ID of the tracing-local ID space (registry, tag and milestone IDs) *)
   a_recv : list (key * N);            (* receiverTaskIDs *)
   a_inb : list (key * N);             (* incomingBufferTaskIDs *)
   a_outb : list (key * N);            (* outgoingBufferTaskIDs *)
